@@ -1476,7 +1476,9 @@ func (e *c19Env) reservedCase(stream string, p c19ResPath, ms []c19Member) {
 	for _, m := range ms {
 		if c19MustNotSet(p.name, m) && status/100 == 2 {
 			sig := "reserved-accepted:" + p.name + ":" + m.key
-			if m.escaped {
+			if m.key == "_cv" {
+				sig = "stored-cv-clashes-with-injected-cv" // the defect repaired by d51088e, whatever the spelling
+			} else if m.escaped {
 				sig = "blip-escaped-reserved-key"
 				if p.name != "PBlip" {
 					sig = "escaped-reserved-key:" + p.name
